@@ -1039,6 +1039,36 @@ let adapt_case (input : string) (obs : string) : verdict =
       { model; oracle = !oracle }
   | _ -> failwith "adapt: bad input"
 
+(* ---- visitors.ExpectObjVisitor (the inline filter) ---- *)
+let expobj_case (input : string) (obs : string) : verdict =
+  match Str.bounded_split_delim (Str.regexp_string "|") input 2 with
+  | [ h; x ] ->
+      let failat = int_of_string (String.trim h) in
+      let evs = events_of_toks (words x) in
+      let (log, err), fin = eo_observe (fail_opt failat) evs in
+      let model = Printf.sprintf "EV %s E %s DONE %d" (toks_of_events log)
+          (match err with EoNone -> "none" | EoTarget -> "target" | EoNotObject -> "notobj") (if fin then 1 else 0) in
+      let oracle = ref [] in
+      (match words obs with
+       | "EV" :: rest ->
+           let toks, r = split_at "E" rest in
+           let got = events_of_toks toks in
+           let v = match r with v :: _ -> v | [] -> "?" in
+           (* a single well-formed object in, no failure: its members out, and they are members of a well-formed object *)
+           (match evs with
+            | EObjStart (n, bt) :: _ when failat < 0 && contract_ok evs ->
+                if v <> "none" then oracle := ("C09", "the inline filter refused a well-formed object: " ^ v) :: !oracle
+                else if not (contract_ok (EObjStart (z_of_int (-1), bt) :: got @ [ EObjEnd ])) then
+                  oracle := ("C09", "the inline filter forwarded something that is not a sequence of members") :: !oracle
+            | _ -> ());
+           if failat >= 0 && List.length got > failat + 1 then
+             oracle := ("C16", "the inline filter delivered events after the visitor failed") :: !oracle;
+           if failat >= 0 && List.length got = failat + 1 && v <> "target" then
+             oracle := ("C16", "the inline filter did not return the visitor's error: " ^ v) :: !oracle
+       | _ -> oracle := ("C09", "the inline filter crashed: " ^ obs) :: !oracle);
+      { model; oracle = !oracle }
+  | _ -> failwith "expobj: bad input"
+
 (* ---- C02: all cut sets of a short document ---- *)
 let cut_chunks (doc : z list) (mask : int) : z list list =
   let n = List.length doc in
@@ -1598,7 +1628,7 @@ let scut_case f input obs = try scut_case f input obs with Unknown_float -> { mo
 let fmts = [ cbor_fmt; ubj_fmt; json_fmt ]
 let () = all_fmts := fmts
 let fmt_handlers =
-  ("xc", xc_case) :: ("adapt", adapt_case) ::
+  ("xc", xc_case) :: ("adapt", adapt_case) :: ("expobj", expobj_case) ::
   List.concat_map (fun f -> [ (f.fname ^ "enc", enc_case f); (f.fname ^ "parse", parse_case f); (f.fname ^ "dec", dec_case f);
                               ("rt" ^ f.fname, rt_case f); ("x10" ^ f.fname, x10_case f); ("hist" ^ f.fname, hist_case f); ("wafter" ^ f.fname, wafter_case f); ("deep" ^ f.fname, deep_case f); ("big" ^ f.fname, big_case f); ("bigstr" ^ f.fname, bigstr_case f); ("cuts" ^ f.fname, cuts_case f); ("scut" ^ f.fname, scut_case f) ]) fmts
 
